@@ -182,6 +182,28 @@ PLAN = {
         ],
         "require_counters": {"all": ["uniform_draws"]},
     },
+    "C15": {
+        "level": "fault_enumeration",
+        "exhaustive": False,
+        "rule": "round trips: bdd/bcdd/zbdd/mtbdd(i64,f64; ASCII) x 6 orders x 10 naming schemes (named, unnamed, partly, spaces, tabs, "
+                "control characters, empty, unicode, colliding after sanitising, leading underscores/digits) x root subsets of the 256 "
+                "three-variable functions x {ASCII, binary} x {2.0, 3.0} x {strict, not} x root names; random diagrams with 0..10 variables "
+                "and unused variables; every export checked against an independent model of the header (names, support, order, level "
+                "map, node count) and imported into the same manager (handle equality) and into fresh managers (table equality + "
+                "structural audit); TDD export-only. Faults: every truncation point of 12 corpus files plus seeded mutations (bit flips, "
+                "byte/line edits, header-count edits, node-number edits, splices): load+import must return, never panic; an Ok import "
+                "must have the right roots, pass the structural audit and match an independent evaluation of the node lines. Huge "
+                "header counts in a child process under ulimit. distinct = distinct round-trip configurations + distinct mutant files "
+                "by outcome class.",
+        "assumptions": ["host allocation failure for absurd header counts is observed, not judged", "the pointer backend is exercised by C20"],
+        "jobs": [
+            {"monitor": "c15_roundtrip", "variant": "rel", "shards": 16},
+            {"monitor": "c15_malformed", "variant": "rel", "shards": 16},
+            {"monitor": "c15_malformed", "variant": "dbg", "shards": 16},
+            {"monitor": "c15_huge", "variant": "rel", "shards": 1},
+        ],
+        "require_counters": {"all": ["roundtrips", "truncations", "files_mutated", "import_errors"]},
+    },
     "C08": {
         "level": "exploration",
         "exhaustive": True,
@@ -217,6 +239,15 @@ PLAN = {
 HOOK_COMMITS = []
 
 MANIFEST_TEXT = {
+    "C15": {
+        "text": "Every generated export was re-imported (same and fresh managers) and compared with the model and an independent "
+                "header model; every truncation point and thousands of seeded mutations of valid files were fed to the importer, which "
+                "must return an error or a well-formed diagram. One recorded known finding (format 2.0 cannot carry names of unused "
+                "variables).",
+        "design_ref": "DESIGN.md section 5 / C15",
+        "note": "Trusted: sanitising / header model in harness/src/mon/c15.rs. Mutations are sampled; truncations are complete for files < 4 KB.",
+        "technique": "runtime monitoring with fault enumeration: round-trip oracle + truncation/mutation sweep under panic capture",
+    },
     "C10": {
         "text": "Held on every executed case: all scalar boundary pairs for both terminal types against exact reference arithmetic; "
                 "all function pairs over 2 variables from a 5-value palette under all six operators interleaved on one manager; random "
